@@ -127,6 +127,17 @@ func Marshal(m proto.Message) ([]byte, error) {
 	return inet.NewProtoSerializer().MarshalBinary(m)
 }
 
+// MarshalMeta encodes one frame that carries a metadata block (headers + deadline).
+// Layout: [4 totalLen][4 nameLen][4 metaLen][name][meta][proto];
+// meta = [2 count]{[2 keyLen][key][2 valLen][val]}*[8 remaining ns].
+func MarshalMeta(m proto.Message, headers map[string]string) ([]byte, error) {
+	md := inet.NewMetadata()
+	for k, v := range headers {
+		md.Set(k, v)
+	}
+	return inet.NewProtoSerializer().MarshalBinaryWithMetadata(m, md)
+}
+
 // Unmarshal decodes one frame (robustness half: must return an error, never panic).
 func Unmarshal(b []byte) (proto.Message, string, error) {
 	m, n, err := inet.NewProtoSerializer().UnmarshalBinary(b)
